@@ -56,7 +56,8 @@ def corruptions(v, p, version, name):
         t = v.split("--")[0] if isinstance(v, str) and "--" in v else "identity"
         out += [("no-separator", t + "-" + V4), ("non-hex", t + "--" + V4[:-1] + "g"), ("uppercase-hex", t + "--" + V4.upper()), ("nil-uuid", t + "--" + NIL), ("uuid-v1", t + "--" + V1),
                 ("extra-suffix", t + "--" + V4 + "x"), ("urn-form", t + "--urn:uuid:" + V4), ("braces", t + "--{" + V4 + "}"), ("no-hyphens", t + "--" + V4.replace("-", "")),
-                ("empty-type", "--" + V4), ("type-only", t), ("ncs-variant", t + "--3f7f0c5f-5d54-4292-14ea-ec1e1952be01"), ("uppercase-type", t.upper() + "--" + V4)]
+                ("empty-type", "--" + V4), ("type-only", t), ("double-separator", t + "----" + V4), ("infix-before-uuid", t + "--x--" + V4), ("two-uuids", t + "--" + V4 + "--" + V4),
+                ("type-twice", t + "--" + t + "--" + V4), ("ncs-variant", t + "--3f7f0c5f-5d54-4292-14ea-ec1e1952be01"), ("uppercase-type", t.upper() + "--" + V4)]
     if k == "id":
         out.append(("wrong-type-prefix", "tool--" + V4 if not str(v).startswith("tool--") else "identity--" + V4))
     if k == "ref":
@@ -114,13 +115,16 @@ def object_level(j, version, key):
         return {k: v for k, v in j.items() if k not in names}
     CO = {
         "location": [("no-region-country-latlong", wo("region", "country", "latitude", "longitude", "precision")), ("latitude-without-longitude", dict(wo("longitude", "precision"), latitude=1.0)),
-                     ("precision-without-latlong", dict(wo("latitude", "longitude"), precision=1.0)), ("latitude-91", dict(j, latitude=91.0, longitude=0.0)),
+                     ("precision-without-latlong", dict(wo("latitude", "longitude"), precision=1.0)),
+                     # the same co-constraints with values that are false in a truth test
+                     ("precision-zero-without-latlong", dict(wo("latitude", "longitude"), region="europe", precision=0.0)), ("precision-int-zero-without-latlong", dict(wo("latitude", "longitude"), region="europe", precision=0)),
+                     ("latitude-zero-without-longitude", dict(wo("longitude", "precision"), region="europe", latitude=0.0)), ("longitude-zero-without-latitude", dict(wo("latitude", "precision"), region="europe", longitude=0.0)), ("latitude-91", dict(j, latitude=91.0, longitude=0.0)),
                      ("longitude-minus-181", dict(j, latitude=0.0, longitude=-181.0)), ("precision-negative", dict(j, latitude=0.0, longitude=0.0, precision=-1.0))],
         "malware": [("family-without-name", dict(wo("name"), is_family=True))] if version == "2.1" else [],
         "malware-analysis": [("neither-result-nor-scos", wo("result", "analysis_sco_refs"))],
         "observed-data": [("objects-and-object_refs", dict(j, objects=gen.Gen(version).container(), object_refs=["ipv4-addr--" + V4])) if version == "2.1" else ("no-objects", wo("objects")),
                           ("neither-objects-nor-refs", wo("objects", "object_refs")), ("last-before-first", dict(j, first_observed="2017-01-01T00:00:00Z", last_observed="2016-01-01T00:00:00Z")),
-                          ("number_observed-0", dict(j, number_observed=0)), ("number_observed-1e9", dict(j, number_observed=1000000000))],
+                          ("number_observed-0", dict(j, number_observed=0)), ("number_observed-0.0", dict(j, number_observed=0.0)), ("number_observed-1e9", dict(j, number_observed=1000000000))],
         "indicator": [("valid_until-equals-valid_from", dict(j, valid_from="2016-01-01T00:00:00Z", valid_until="2016-01-01T00:00:00.000Z")),
                       ("valid_until-before-valid_from", dict(j, valid_from="2016-01-01T00:00:00Z", valid_until="2015-01-01T00:00:00Z")), ("bad-pattern", dict(j, pattern="[this is not a pattern")),
                       ("empty-pattern", dict(j, pattern=""))],
@@ -134,7 +138,8 @@ def object_level(j, version, key):
         "artifact": [("payload-and-url", dict(j, payload_bin="YQ==", url="https://e.x/a", hashes={"MD5": gen.HASHES["MD5"]})), ("url-without-hashes", dict(wo("payload_bin", "hashes"), url="https://e.x/a"))],
         "email-message": [("multipart-with-body", dict(wo("body_multipart"), is_multipart=True, body="b")),
                           ("not-multipart-with-body_multipart", dict(wo("body"), is_multipart=False, body_multipart=[{"body": "b", "content_type": "text/plain"}]))],
-        "file": [("neither-hashes-nor-name", wo("hashes", "name"))] if version == "2.1" else [("algorithm-without-is_encrypted", dict(wo("is_encrypted"), encryption_algorithm="aes"))],
+        "file": [("neither-hashes-nor-name", wo("hashes", "name")), ("empty-name-no-hashes", dict(wo("hashes"), name=""))] if version == "2.1" else
+        [("algorithm-without-is_encrypted", dict(wo("is_encrypted"), encryption_algorithm="aes")), ("algorithm-with-is_encrypted-false", dict(j, is_encrypted=False, encryption_algorithm="aes"))],
         "network-traffic": [("neither-src-nor-dst", wo("src_ref", "dst_ref")), ("end-with-is_active-true", dict(j, end="2017-01-01T00:00:00Z", is_active=True)),
                             ("end-before-start", dict(j, start="2017-01-01T00:00:00Z", end="2016-01-01T00:00:00Z", is_active=False)), ("port-65536", dict(j, src_port=65536)), ("port-negative", dict(j, dst_port=-1)),
                             ("no-protocols", wo("protocols")), ("empty-protocols", dict(j, protocols=[]))],
@@ -263,8 +268,45 @@ def prebuilt_subobjects(part, base, version, tkey, case):
                 check_result(part, obj, version, c, "prebuilt-subobject/" + ("extension" if "extensions" in tpath else "embedded"))
 
 
+def datetime_objects():
+    """timestamp values as objects: STIXdatetime with every (precision, constraint) - as read from some other object's property - and plain datetimes, carrying 123456 microseconds"""
+    import datetime as dt
+    import stix2.utils as U
+    base = dt.datetime(2016, 5, 12, 8, 17, 27, 123456, tzinfo=dt.timezone.utc)
+    out = [("datetime-us", base), ("datetime-offset", base.astimezone(dt.timezone(dt.timedelta(hours=5, minutes=30)))), ("date", dt.date(2016, 5, 12))]
+    for p in ("any", "millisecond", "second"):
+        for c in ("exact", "min"):
+            out.append(("STIXdatetime-%s-%s" % (p, c), U.STIXdatetime(base, precision=p, precision_constraint=c)))
+    return out
+
+
+def run_datetime_objects(case, part):
+    """every timestamp slot x every datetime object form, through the constructor and parse(dict) (a dict may hold objects)"""
+    import stix2
+    version, key, label = case["version"], case["key"], case["label"]
+    wrapped = None
+    for k2, l2, i2, w2, loc2 in harness.all_cases(version, keys=[key]):
+        if l2 == label:
+            wrapped = w2
+            break
+    if wrapped is None:
+        raise RuntimeError("generator no longer produces %s %s %s" % (version, key, label))
+    tkey = model.spec(version).key_for_type(wrapped["type"])
+    part.state((version, key, label, "datetime-objects"), nontrivial=True)
+    for path, v, p, ckey, pname in harness.typed_slots(wrapped, version, tkey):
+        if p["kind"] != "timestamp":
+            continue
+        for dlabel, dv in datetime_objects():
+            j = gen.set_path(wrapped, path, dv)
+            # companions that must stay ordered after / equal to this slot are moved along (the value itself is what is under test)
+            c = dict(case, slot=list(path), corruption="object:" + dlabel)
+            attempt(part, j, version, c, "timestamp/object:" + dlabel, ["parse(dict)", "constructor"])
+
+
 def run_case(case, part):
     env.reset()
+    if case.get("kind") == "datetime-objects":
+        return run_datetime_objects(case, part)
     version, key, label = case["version"], case["key"], case["label"]
     wrapped = loc = None
     for k2, l2, i2, w2, loc2 in harness.all_cases(version, keys=[key]):
@@ -328,6 +370,8 @@ def replay(case, part):
             c.pop("corruption", None)
     if "extra" in case:
         c["with_extra"] = True
+    if str(case.get("corruption", "")).startswith("object:"):
+        c = {"version": case["version"], "key": case["key"], "label": case["label"], "kind": "datetime-objects"}
     run_case(c, part)
 
 
@@ -341,9 +385,10 @@ def run(run):
                 cases.append({"version": version, "key": key, "label": label})
             if th:
                 cases.append({"version": version, "key": key, "label": "min", "with_extra": True})
+            cases.append({"version": version, "key": key, "label": "max", "kind": "datetime-objects"})
     run.mode = "DEV (fault enumeration)"
     run.rule = ("every (type, base in {minimal, maximal}, slot, corruption) + object-level corruptions x 3 entry forms in strict mode%s; states = distinct bases; an evaluation is "
-                "non-trivial whenever the library ACCEPTS the corrupted input (then the frozen validator judges the output)" % ("; x one extra valid optional property on minimal bases" if th else ""))
+                "non-trivial whenever the library ACCEPTS the corrupted input (then the frozen validator judges the output); every timestamp slot also fed with datetime / STIXdatetime objects of every precision setting" % ("; x one extra valid optional property on minimal bases" if th else ""))
     run.bound = {"simultaneous_corruptions": 1, "bases": len(cases), "entry_forms": 3}
     run.assumptions += ["frozen spec model and validator mc/spec (MUST-level rules only; sanity-checked on the repository's example content)", "stix2patterns validates indicator patterns"]
     run.pmap(run_case, cases)
